@@ -48,7 +48,9 @@ RULE = ('Hypothesis: FileSpec (1-5 dims of length 1-5, 1-5 numeric variables '
         ' median/average/amax/amin/ptp on any data, nan* on files without a '
         'masked variable on the dimension; oracle = the plain numpy function '
         'on the VALID elements of every 1-D slice, all-masked slice -> masked) and convolve_dim("dim,mode,w1,..") on one '
-        'dimension: dimension lengths, values (same tolerances, result dtype '
+        'dimension - the files carry sibling dimensions <dim><digits> (reduced '
+        'too by reduce_dim\'s documented fuzzy rule), <dim><digits><text>, '
+        '<dim><text>, <text><dim> (never touched), each with a variable - : dimension lengths, values (same tolerances, result dtype '
         'of reduce_dim not judged) and masks, where a cell that should be '
         'masked may instead hold the declared fill value (Pseudo2NetCDF '
         'convention) and convolve_dim on masked data may follow either '
@@ -122,6 +124,50 @@ def funcs(draw, n):
 
 
 @st.composite
+def siblings(draw, fs, d):
+    """add (in place) 0-3 dimensions whose names extend `d`, each with a
+    variable on it: <d><digits> (the documented fuzzy match of reduce_dim
+    reduces it too), <d><digits><text>, <d><text> and <text><d> (never
+    touched)"""
+    have = set(x[0] for x in fs['dims'])
+    # one <d><digits> sibling at most: with nested numbers (a1 and a12)
+    # reduce_dim's recursion reduces a12 twice, which is not idempotent for
+    # ptp/std/var (observed on the unchanged tree, not asserted here)
+    pool = [draw(st.sampled_from([d + '1', d + '12', d + '47'])),
+            d + '3_edges', d + '2b', d + 'q', 'q' + d]
+    k = draw(st.integers(0, 3))
+    names = [n for n in draw(st.permutations(pool))[:k] if n not in have]
+    if any(x.startswith(d) and x[len(d):].isdigit() for x in have):
+        names = [n for n in names if not n[len(d):].isdigit() or
+                 not n.startswith(d)]
+    others = [x[0] for x in fs['dims'] if x[0] != d]
+    for i, n in enumerate(names):
+        ln = draw(st.integers(1, 3))
+        fs['dims'].append([n, ln, False])
+        vd = [n]
+        oshape = [ln]
+        if others and draw(st.booleans()):
+            o = draw(st.sampled_from(others))
+            ol = [x[1] for x in fs['dims'] if x[0] == o][0]
+            if draw(st.booleans()):
+                vd, oshape = [o, n], [ol, ln]
+            else:
+                vd, oshape = [n, o], [ln, ol]
+        size = int(np.prod(oshape))
+        code = draw(st.sampled_from(['f4', 'f8', 'i4']))
+        data = draw(st.lists(S._elements(code, FOPTS), min_size=size,
+                             max_size=size))
+        mask = fill = None
+        if draw(st.integers(0, 2)) == 0:
+            mask = [int(x) for x in draw(st.lists(
+                st.booleans(), min_size=size, max_size=size))]
+            fill = -999
+        fs['vars'].append(dict(name='s%d' % i, dims=vd, dtype=code,
+                               data=data, mask=mask, fill=fill, attrs={}))
+    return names
+
+
+@st.composite
 def cases(draw, tier='quick'):
     fs = draw(S.filespecs(**FOPTS))
     names = [d[0] for d in fs['dims']]
@@ -151,6 +197,7 @@ def cases(draw, tier='quick'):
             fs['gattrs'].pop('history')
         sub = draw(st.sampled_from(['conv', 'modred', 'method', 'conv',
                                    'modred']))
+        draw(siblings(fs, d))
         # a third of the string-form cases run on the file saved as netCDF
         # and reopened (class netcdf: variables are netCDF4.Variable)
         disk = A.disk_ok(fs) and draw(st.integers(0, 2)) == 0
@@ -165,8 +212,10 @@ def cases(draw, tier='quick'):
             names = list(MODRED_BOTH)
             # (netCDF4 hands out every variable as a masked array, so the
             # numpy-only nan* names do not resolve for reopened files)
-            if not disk and not any(
-                    d in v['dims'] and v.get('mask') is not None
+            fuzzy = any(x[0] != d and x[0].startswith(d) and
+                        x[0][len(d):].isdigit() for x in fs['dims'])
+            if not disk and not fuzzy and not any(
+                    v.get('mask') is not None and d in v['dims']
                     for v in fs['vars']):
                 names = names + list(MODRED_NP)
             return dict(file=fs, form='plain', entry='reduce_dim', disk=disk,
@@ -420,8 +469,33 @@ def check_string_form(case):
         ok, out = guard(r, 'convolve_dim-raises',
                         lambda: F.convolve_dim(f, arg))
         newlen = int(np.convolve(w32, np.arange(n), mode=fd[1]).size)
+    # dimensions the call changes: the named one; reduce_dim's documented
+    # fuzzy rule also reduces every dimension named <dim><digits>
+    R = S.OD([(d, newlen)])
+    if entry == 'reduce_dim':
+        for dn in m.dims:
+            if dn != d and dn.startswith(d) and dn[len(d):].isdigit():
+                R[dn] = 1
+                r.label('sibling:dim+digits(reduced)')
+    for dn in m.dims:
+        if dn in R or d not in dn:
+            continue
+        rest = dn[len(d):] if dn.startswith(d) else None
+        if rest is None:
+            r.label('sibling:text+dim')
+        elif rest[:1].isdigit():
+            r.label('sibling:dim+digits+text')
+        else:
+            r.label('sibling:dim+text')
+    rdim = {}
+    for mv in m.vars.values():
+        hit = [x for x in mv.dims if x in R]
+        if len(hit) == 1:
+            rdim[mv.name] = hit[0]
+        elif len(hit) > 1:
+            rdim[mv.name] = None      # not generated; not judged
     touched = [mv for mv in m.vars.values() if d in mv.dims]
-    nt = any(d not in mv.dims for mv in m.vars.values())
+    nt = any(mv.name not in rdim for mv in m.vars.values())
     if nt:
         r.label('var-lacking-dims')
     if newlen != n and entry == 'convolve_dim':
@@ -447,12 +521,13 @@ def check_string_form(case):
     if r.failures:
         return r
     for dn, (l, u) in m.dims.items():
-        if dn == d and not touched and entry == 'reduce_dim':
+        if dn in R and entry == 'reduce_dim' and not any(
+                dn in mv.dims for mv in m.vars.values()):
             continue    # legacy form drops a dimension no variable uses
         if dn not in out.dimensions:
             r.fail('dims', 'dimension %s missing' % dn, klass=entry)
             continue
-        want = newlen if dn == d else l
+        want = R[dn] if dn in R else l
         if len(out.dimensions[dn]) != want:
             r.fail('dims', 'dimension %s has length %d, expected %d' % (
                 dn, len(out.dimensions[dn]), want), klass=entry)
@@ -478,18 +553,27 @@ def check_string_form(case):
                     r.label('masked-cells-stored-as-fill')
                 ov = np.ma.MaskedArray(np.asarray(np.ma.getdata(la)),
                                        mask=np.ma.getmaskarray(la) | asfill)
-        if d not in mv.dims:
+        if name not in rdim:
             msg = S.cmp_array(ov, mv.data, 'untouched ' + what, bits=True)
             if msg:
                 r.fail('untouched-data', msg, klass=entry)
             continue
-        ax = list(mv.dims).index(d)
+        if rdim[name] is None:
+            continue
+        ax = list(mv.dims).index(rdim[name])
         tol = tolerances(np.float32 if mv.data.dtype.kind != 'f'
                          else mv.data.dtype, mv.data, [[d, fd]])
         cands = []
         with np.errstate(all='ignore'):
             if entry == 'reduce_dim':
                 cands.append(model_step(mv.data, ax, fd))
+                if mv.data.dtype.kind in 'iu':
+                    # (result dtype is not judged: a chain of fuzzy
+                    # reductions may store it in the variable's own
+                    # integer type, truncated like numpy assignment)
+                    c2, okc = cast_to(cands[0], mv.data.dtype)
+                    if okc:
+                        cands.append(c2)
             elif mv.masked:
                 for prop in (True, False):
                     cands.append(apply_1d(mv.data, ax, lambda x: np.ma.convolve(
@@ -850,3 +934,16 @@ known.register('C03-convolve_dim-masked-data',
                lambda spec, f: spec.get('entry') == 'convolve_dim' and
                f.clause in ('string-form-mask', 'string-form-values') and
                f.klass == 'convolve_dim/masked')
+
+
+def _has_fuzzy_sibling(spec):
+    d = spec['funcs'][0][0]
+    return any(x[0] != d and x[0].startswith(d) and x[0][len(d):].isdigit()
+               for x in spec['file']['dims'])
+
+
+known.register('C03-reduce_dim-fuzzy-chain-mask-lost',
+               lambda spec, f: spec.get('entry') == 'reduce_dim' and
+               _has_fuzzy_sibling(spec) and
+               f.clause in ('string-form-mask', 'string-form-values') and
+               f.klass == 'reduce_dim/masked')
